@@ -136,6 +136,13 @@ def run(prop, tier, v):
                 metas.append(('tlc:' + mode + ':extended', s, notes))
     n_rand = 3000 if tier == 'quick' else 40000
     for i in range(n_rand):
+        if i % 400 == 0:
+            # an encode that FAILS part-way (a presentation context id that does not fit its byte) must leave nothing
+            # behind: the structures that follow are judged as always
+            try:
+                L.pdu.PDataTfPDU([L.pdu.PresentationDataValueItem(1, b'\x03ab'), L.pdu.PresentationDataValueItem(300, b'\x03cd')]).encode()
+            except Exception:      # noqa
+                pass
         s = L.rand_pdu(rng)
         inc = 'extended' if i % 7 == 3 else (i % 3 == 2)
         c, notes = exercise(s, incremental=inc)
@@ -158,6 +165,43 @@ def run(prop, tier, v):
             key = {'site': 'pdu/userdataitems', 'clause': clause, 'sig': kinds_of(s)}
             v.report(key, '%s on %s (%s) %s' % (clause, kinds_of(s), src, json.dumps(notes)[:300]),
                      replay={'structure': L.to_tla_json(s)})
+    # several threads encode and decode at once (one provider thread per association does): every result must be the one
+    # the reference gives for that structure
+    import threading
+    pool = [s for _, s, _ in metas if s['t'] in (1, 2, 4)][:400]
+    refs = [W.enc_pdu(s) for s in pool]
+    wrong = []
+
+    def worker(k):
+        r = random.Random(k)
+        for _ in range(600 if tier == 'quick' else 6000):
+            j = r.randrange(len(pool))
+            try:
+                b = L.to_lib(pool[j]).encode()
+                back = L.from_lib(L.LIB_CLASS[pool[j]['t']].decode(refs[j]))
+            except ValueError:
+                continue
+            except Exception as exc:      # noqa
+                wrong.append((j, 'raised %s: %s' % (type(exc).__name__, exc)))
+                continue
+            if L.strip_titles(L.from_lib(L.LIB_CLASS[pool[j]['t']].decode(b))) != L.strip_titles(back) or (pool[j]['t'] == 4 and b != refs[j]):
+                wrong.append((j, 'bytes or decoded structure differ from the sequential result'))
+            if len(wrong) > 5:
+                return
+    import sys as _sys
+    old = _sys.getswitchinterval()
+    _sys.setswitchinterval(1e-6)
+    try:
+        ths = [threading.Thread(target=worker, args=(k,)) for k in range(4)]
+        for t in ths:
+            t.start()
+        for t in ths:
+            t.join()
+    finally:
+        _sys.setswitchinterval(old)
+    for j, why in wrong[:3]:
+        v.report({'site': 'pdu/userdataitems', 'clause': 'library-bytes-differ-from-standard-layout' if prop == 'C02' else 'round-trip-differs', 'sig': 'concurrent'},
+                 'with four threads encoding / decoding at once: %s on %s' % (why, kinds_of(pool[j])), replay={'structure': L.to_tla_json(pool[j])})
     # large payloads: beyond what TLC's sequences handle comfortably; judged with the certified reference
     big = 0
     for i in range(60 if tier == 'quick' else 600):
@@ -166,21 +210,36 @@ def run(prop, tier, v):
             continue
         big += 1
         ref = W.enc_pdu(s)
-        x = L.to_lib(s)
-        b = x.encode()
-        y = L.LIB_CLASS[4].decode(ref)
         problems = []
+        try:
+            x = L.to_lib(s)
+            b = x.encode()
+        except Exception as exc:      # noqa
+            x, b = None, None
+            if prop == 'C01':
+                problems.append('library-encode-raised')
+        y = None
+        try:
+            y = L.LIB_CLASS[4].decode(ref)
+        except Exception as exc:      # noqa
+            if prop == 'C02':
+                problems.append('library-decode-of-standard-encoding-raised')
         if prop == 'C02':
-            if b != ref:
+            if b is not None and b != ref:
                 problems.append('library-bytes-differ-from-standard-layout')
-            if x.total_length() != len(b):
+            if b is not None and x.total_length() != len(b):
                 problems.append('total_length-differs-from-bytes-emitted')
-            if L.from_lib(y) != s:
+            if b is None:
+                problems.append('library-bytes-differ-from-standard-layout')
+            if y is not None and L.from_lib(y) != s:
                 problems.append('library-decode-of-standard-encoding-differs')
-        else:
-            y1 = L.LIB_CLASS[4].decode(b)
-            if L.deep_eq(x, y1) or y1.encode() != b:
-                problems.append('round-trip-differs')
+        elif b is not None:
+            try:
+                y1 = L.LIB_CLASS[4].decode(b)
+                if L.deep_eq(x, y1) or y1.encode() != b:
+                    problems.append('round-trip-differs')
+            except Exception as exc:      # noqa
+                problems.append('round-trip-decode-raised')
         for pclause in problems:
             v.report({'site': 'pdu/userdataitems', 'clause': pclause, 'sig': 'pdu4-large'},
                      '%s on a P-DATA-TF with PDV sizes %s' % (pclause, [len(p['val']) for p in s['pdvs']]))
